@@ -146,16 +146,21 @@ def gen_obj_history(rng, max_ops=9):
             ops.append({"op": "read", "read": rng.choice(OBJ_READS), "x": rng.randrange(-W, W + 2) if W else rng.randrange(2),
                         "y": rng.randrange(-H, H + 2) if H else rng.randrange(2), "clone": rng.random() < 0.5})
         r = rng.random()
-        if r < 0.07:
+        if r < 0.05:
+            # not in the Lean alphabet (what it removes depends on the run-length encoding): the model is re-initialised from the
+            # XML it leaves, with the wrapper cache the code must leave: empty
+            op = {"op": "optimize_width"}
+        elif r < 0.10:
             op = {"op": "rstrip", "aggr": rng.random() < 0.5}
-        elif r < 0.12:
+        elif r < 0.15:
             op = {"op": "transpose"}
         else:
             op = T.gen_op(rng, g)
             while op["op"] == "set_column_values":
                 op = T.gen_op(rng, g)
         ops.append(op)
-        T.ref_apply(g, op)
+        # (for optimize_width the reference grid only serves to draw later coordinates: approximated by rstrip)
+        T.ref_apply(g, {"op": "rstrip", "aggr": False} if op["op"] == "optimize_width" else op)
         if g.rows and g.ncols == 0:
             break
     return {"cols": cols, "rows": rows, "how": "xml", "ops": ops}
@@ -178,6 +183,9 @@ def obj_line(op):
 
 def obj_impl(t, op):
     """apply to the implementation; the answer of a value read (None otherwise)"""
+    if op["op"] == "optimize_width":
+        t.optimize_width()
+        return None
     if op["op"] != "read":
         T.impl_apply(t, op)
         return None
@@ -245,6 +253,26 @@ def run_obj_histories(chk: core.Check, n_hist: int):
                 if fresh != ans:
                     chk.fail({**case, "live": ans, "fresh_parse": fresh}, f"{op['read']} through the caches differs from the fresh parse of the table's own XML")
                     break
+            if op["op"] == "optimize_width":
+                if dump not in (None, "-"):
+                    # the transformation edits the rows through fresh wrappers: a wrapper cached before would keep an obsolete map
+                    fr = Element.from_tag(xml)
+                    bad = None
+                    for y in range(t.height):
+                        live = (list(t.get_row_values(y)), t.get_row(y).width)
+                        fresh_ = (list(fr.get_row_values(y)), fr.get_row(y).width)
+                        if not T.same(live, fresh_):
+                            bad = (y, live, fresh_)
+                            break
+                    if bad:
+                        chk.fail({**case, "row": bad[0], "live": bad[1], "fresh_parse": bad[2], "cache_left": dump},
+                                 "after optimize_width a read is served from a cached wrapper that the transformation made obsolete")
+                    else:
+                        chk.disagree({**case, "cache_left": dump}, "optimize_width left cached row wrappers behind (the code empties the cache; no stale read found)")
+                    break
+                lines.append(f"otb init {cs} {rs}")
+                expects.append((cs, rs, dump, None, case))
+                continue
             lines.append(obj_line(op))
             expects.append((cs, rs, dump, ans, case))
     answers = core.run_driver(lines)
@@ -332,7 +360,7 @@ def wide_op(t, rng):
         op = T.gen_op(rng, g)
         T.impl_apply(t, op)
         return op
-    k = rng.choice(WIDE_OPS)
+    k = rng.choice(WIDE_OPS + ["optimize_width", "optimize_width", "rstrip"])
     d = {"op": k}
     if k in ("rstrip", "rstrip_aggr"):
         t.rstrip(aggressive=k == "rstrip_aggr")
@@ -392,6 +420,12 @@ def run_wide_histories(chk: core.Check, n_hist: int, extra=None):
             chk.count("wide_initial", "office-style merged cells")
         else:
             cols, rows = T.gen_rle(rng)
+            if rows and rng.random() < 0.4:
+                # rows ending in a repeated run of empty cells, the last row holding a value: what optimize_width / rstrip
+                # shorten IN PLACE through fresh wrappers (a wrapper cached before keeps its own map)
+                rows = [(cells + [(T.EMPTY, rng.choice([2, 3, 7]))], rep) for cells, rep in rows[:-1]] + [(rows[-1][0] + [(("z", None), 1)], rows[-1][1])]
+                width = max(sum(r for _, r in cells) for cells, _ in rows)
+                cols = [(None, width + rng.choice([0, 2]))]
             t = T.table_from_rle(cols, rows)
             case0 = {"cols": cols, "rows": rows, "how": "xml"}
             chk.count("wide_initial", "run-length encoding")
